@@ -460,12 +460,14 @@ theorem parseTokens_desc (d : RangeDesc) : ∀ (sps : List ItemSp) (accD : Range
       | nil =>
         simp only [descToks]
         rw [parseTokens, itemLoop_item it _ hl1 hc1 eofTok (Or.inr rfl) []]
-        simp only [decideItem_regsOf it hwit, hno, Bool.false_eq_true, if_false, eofTok_isEof, if_true]
+        have hadd : addItem (denote accD) (some it.denote) = .ok (denote accD ++ [it.denote]) := by simp [addItem, hno]
+        simp only [decideItem_regsOf it hwit, hadd, eofTok_isEof, if_true]
         simp [denote]
       | cons it2 rest2 =>
         simp only [descToks]
         rw [parseTokens, itemLoop_item it _ hl1 hc1 commaTok (Or.inl rfl) _]
-        simp only [decideItem_regsOf it hwit, hno, Bool.false_eq_true, if_false, commaTok_isEof]
+        have hadd : addItem (denote accD) (some it.denote) = .ok (denote accD ++ [it.denote]) := by simp [addItem, hno]
+        simp only [decideItem_regsOf it hwit, hadd, Bool.false_eq_true, if_false, commaTok_isEof]
         have hacc' : denote accD ++ [it.denote] = denote (accD ++ [it]) := by simp [denote]
         rw [hacc']
         have := ih sps.tail (accD ++ [it]) fuel (by simp) hl2 hc2 (by simpa using hw) (by simpa using hd)
